@@ -88,6 +88,28 @@ def nested(rng):
     return ('<%s>' % name) * depth + inner + ('</%s>' % name) * depth
 
 
+def envelope(rng):
+    """The envelope searches: root / coreMetadata / format / audioFormatExtended with each level missing, present
+    once or present twice, optionally inside a frame with a header."""
+    def level(names, depth):
+        if depth == len(names):
+            return rng.choice(['', '<audioObject audioObjectID="AO_1001" audioObjectName="n"/>'])
+        out = ''
+        for _ in range(rng.choice([0, 1, 1, 1, 2])):
+            out += '<%s>%s</%s>' % (names[depth], level(names, depth + 1), names[depth])
+        if rng.random() < 0.2:
+            out += '<title>t</title>'
+        return out
+    chain = rng.choice([['coreMetadata', 'format', 'audioFormatExtended'], ['format', 'audioFormatExtended'],
+                        ['coreMetadata', 'audioFormatExtended'], ['audioFormatExtended']])
+    body = level(chain, 0)
+    root = rng.choice(['ebuCoreMain', 'ituADM', 'frame', 'frame', 'x'])
+    if root == 'frame' and rng.random() < 0.7:
+        body = rng.choice(['<frameHeader/>', '<frameHeader><frameFormat frameFormatID="FF_00000001" start="00:00:00.00000" '
+                           'duration="00:00:01.00000" type="full"/></frameHeader>']) + body
+    return '<%s>%s</%s>' % (root, body, root)
+
+
 def mutate(rng, data):
     data = bytearray(data)
     for _ in range(rng.choice([1, 1, 2, 4, 16])):
@@ -139,9 +161,11 @@ def gen_inputs(rng, n):
         elif k < 0.45:
             t = garbage_tree(rng, rng.choice([2, 4, 8]), [rng.choice([10, 60, 300])])
             out.append(('garbage-tree', t.render(rng, 0, rng.random() < 0.5).encode()[:65536]))
-        elif k < 0.5:
+        elif k < 0.47:
             out.append(('nested', nested(rng).encode()[:65536]))
-        elif k < 0.75:
+        elif k < 0.55:
+            out.append(('envelope', envelope(rng).encode()))
+        elif k < 0.78:
             out.append(('mutated-file', mutate(rng, admxmlgen.gen_file(rng, size=rng.choice([1, 2]))[0].encode())))
         elif k < 0.9:
             out.append(('mutated-frame', mutate(rng, frame_file(rng).encode())))
